@@ -150,20 +150,26 @@ def embeddings_attr(T, P):
     return {f for f in itertools.permutations(range(tn), pn) if why_not(f, T, P) is None}
 
 
+class ReusedContainer(Exception):
+    pass
+
+
 def call_api(tgt, pat, api):
     """-> list of tuples (target position per pattern atom) or 'malformed' entries"""
     patoms = list(pat.atoms)
     tpos = {id(a): i for i, a in enumerate(tgt.atoms)}
     got = []
-    if api == "match":
-        for m in tgt.match(pat):
+    items = list(tgt.match(pat)) if api == "match" else list(tgt.get_substr_indices(pat))  # exhausted first, inspected afterwards
+    if len({id(x) for x in items}) != len(items):
+        raise ReusedContainer(f"{len(items)} items, {len({id(x) for x in items})} distinct objects")
+    for m in items:
+        if api == "match":
             if not isinstance(m, dict) or len(m) != len(patoms) or any(not any(k is a for k in m) for a in patoms):
                 got.append("malformed")
             else:
                 got.append(tuple(tpos.get(id(m[a]), -1) for a in patoms))
-    else:
-        for l in tgt.get_substr_indices(pat):
-            got.append(tuple(int(x) if isinstance(x, (int, np.integer)) else -1 for x in l) if isinstance(l, (list, tuple)) else "malformed")
+        else:
+            got.append(tuple(int(x) if isinstance(x, (int, np.integer)) else -1 for x in m) if isinstance(m, (list, tuple)) else "malformed")
     return got
 
 
@@ -189,6 +195,9 @@ def attr_case(ctx, agg, T, P, attribute, side, apis=APIS):
 
         try:
             got = call_api(tgt, pat, api)
+        except ReusedContainer as e:
+            fail("yielded-containers-are-one-object-reused", f"list({opname}(...)): {e}")
+            continue
         except Exception as e:
             fail(f"raised-{type(e).__name__}", f"{opname} raised {type(e).__name__}: {e}")
             continue
@@ -416,6 +425,9 @@ def view_case(ctx, agg, kind, pidx, extra, pat_i, seed, pattern_from_target=Fals
     try:
         ident = set(call_api(tgt, pat, "match"))
         got = call_api(tgt, pat, api)
+    except ReusedContainer as e:
+        fail("yielded-containers-are-one-object-reused", f"list(get_substr_indices(...)): {e}")
+        return
     except Exception as e:
         fail(f"raised-{type(e).__name__}", f"raised {type(e).__name__}: {e}")
         return
